@@ -164,7 +164,10 @@ func runDKGCallers(t *testing.T, rc *RunCtx) {
 	c := NewCluster(t, rc, s, ClusterCfg{IDs: []uint64{1, 2, 3, 4}, Timeout: timeout, Perms: FullPermissions("client1", "SIGNER-02", "signer-02x")})
 	defer c.Close()
 	co := &coordinator{c: c}
-	parts := c.Nodes[:3] // signer-04 is a configured peer that takes no part in the generation
+	// signer-03 (id 3) is a configured peer that takes no part in the generation; its id lies between those of
+	// the participants (1, 2, 4).
+	parts := []*Node{c.Nodes[0], c.Nodes[1], c.Nodes[3]}
+	outsider := c.Nodes[2]
 	target := parts[1]   // signer-02, id 2
 	legit := parts[0].Name
 	acct := "Wallet 3/acct16"
@@ -226,7 +229,7 @@ func runDKGCallers(t *testing.T, rc *RunCtx) {
 		time.Sleep(timeout + time.Second)
 		rc.Stats.Inc("sim_time_ms", int64((timeout+time.Second)/time.Millisecond))
 	}
-	caller := map[string]string{"peer": parts[2].Name, "peer-not-in-generation": c.Nodes[3].Name, "client-with-all-permissions": "client1", "empty": "", "unknown": "nobody", "peer-name-uppercase": "SIGNER-02", "peer-name-with-suffix": "signer-02x"}[tc.Caller]
+	caller := map[string]string{"peer": parts[2].Name, "peer-not-in-generation": outsider.Name, "client-with-all-permissions": "client1", "empty": "", "unknown": "nobody", "peer-name-uppercase": "SIGNER-02", "peer-name-with-suffix": "signer-02x"}[tc.Caller]
 	isPeer := tc.Caller == "peer"
 
 	// A contribution that would verify at the target: a dishonest-but-consistent one for the target's id.
@@ -257,7 +260,7 @@ func runDKGCallers(t *testing.T, rc *RunCtx) {
 			pk := pubOfSecret(cres.GetSecret())
 			for _, n := range parts {
 				if bytes.Equal(pk, evalAt(cres.GetVerificationVector(), n.ID)) {
-					rc.Violate("C16", "share-of-another-participant", fmt.Sprintf("%s: the reply to peer %s (id %d, not a participant) carries the share of participant %d", tc, c.Nodes[3].Name, c.Nodes[3].ID, n.ID), 0)
+					rc.Violate("C16", "share-of-another-participant", fmt.Sprintf("%s: the reply to peer %s (id %d, not a participant) carries the share of participant %d", tc, outsider.Name, outsider.ID, n.ID), 0)
 				}
 			}
 		}
